@@ -367,7 +367,40 @@ def run_optgp(acc, rng, model, ident0):
         acc.nontrivial("optgp", p, h(ident0))
 
 
+def run_probe(pr, acc):
+    """Committed deterministic case for the linear-MOMA finding: the same item asked in two
+    serial item orders (the previous task's basis differs) - no pool needed."""
+    F = functions()
+    rec = pr["recipe"]
+    with warnings.catch_warnings():
+        warnings.simplefilter("ignore")
+        model = gen.build(rec)
+        model._cv_ref = model.optimize()
+        model._cv_rules = {d["id"]: gen._tuplify(d["gpr"]) for d in rec["rxns"]}
+        fn = F[pr["function"]][0]
+        a = fn(model, pr["order_a"], 1)
+        b = fn(model, pr["order_b"], 1)
+    acc.ev()
+    acc.count("probes_run")
+    it = pr["item"]
+    fname = pr["function"]
+    ident = {"probe": pr["name"], "function": fname, "item": it, "order_a": pr["order_a"], "order_b": pr["order_b"]}
+    if not all(near(x, y) for x, y in zip(a[it], b[it])):
+        if moma_not_unique(model, fname, it, [a[it], b[it]]):
+            acc.violation(
+                f"C14/{fname.split('(')[0]}/linear-moma/growth-not-unique-at-the-minimal-adjustment-optimum",
+                f"{fname}: {it} = {a[it]} in item order A, {b[it]} in item order B (both serial); both lie in the exact range of the objective over all minimal-adjustment solutions",
+                ident,
+            )
+        else:
+            acc.violation(f"C14/{fname}/value-depends-on-item-order", f"{fname}: {it} = {a[it]} in item order A, {b[it]} in item order B (both serial)", ident)
+
+
 def run_shard(desc, acc):
+    if desc.get("kind") == "probes":
+        for pr in desc["probes"]:
+            run_probe(pr, acc)
+        return
     F = functions()
     with tempfile.TemporaryDirectory(prefix="cv-c14-") as tmpdir:
         if desc["kind"] == "textbook":
